@@ -88,6 +88,13 @@ def header_sums(fx):
     if len(tl) != 1:
         raise core.AnalysisBroken("writeFormattedHeader: type fields have different widths %s" % tl)
     nchar += tl.pop()
+    # every type field is followed by the line terminator (std::endl): one more byte on disk
+    nls = set()
+    for c in walk(sw[0]):
+        if c["k"] == "Case":
+            nls.add(sum(1 for x in walk(c["sub"]) if x["k"] in ("Ref", "ULookup") and x.get("n") == "endl"))
+    if nls != {1}:
+        raise core.AnalysisBroken("writeFormattedHeader: not every header line ends with exactly one std::endl (%s)" % nls)
     return seq, nchar, wb, wf
 
 
@@ -329,6 +336,32 @@ def run(chk):
         for i in tops:
             if nbytes(lb[i]["a"][1]) != 4:
                 chk.violation(r_br, key + ":marker", "%s: the record marker is not 4 bytes" % key, f["file"], lb[i]["l"])
+    check_reader_bracket(chk, fx, r_br)
+
+    # ---- C07.fmtexp: the formatted DOUB writer drops the 'D' for 3-digit exponents and may emit a leading '-'
+    r_fe = chk.rule("C07.fmtexp", "formatted DOUB: the writer omits the exponent letter exactly for 3-digit exponents; the reader re-inserts it before the exponent's sign, never before the mantissa's", floor=2)
+    wd = fx.fn1("Opm::EclIO::EclOutput::make_doub_string_ecl")
+    env = {v["n"]: show(v.get("init")) for n in walk(wd["body"]) if n["k"] == "Decl" for v in n["vars"]}
+    chk.instance(r_fe, "writer", sample=env.get("use_exp_char"))
+    if env.get("use_exp_char") != "((exp >= (-100)) && (exp < 99))":
+        chk.violation(r_fe, "writer", "make_doub_string_ecl writes the exponent letter when %s; three-digit exponents (exp+1 outside -99..99) have no room for it" % env.get("use_exp_char"), wd["file"], wd["l"])
+    neg = any('"-0."' in show(x) for x in walk(wd["body"]) if x["k"] == "Str" or x["k"] == "OpCall")
+    rdb = fx.fn1("Opm::EclIO::readFormattedDoubArray")
+    srch = [c for c in walk(rdb["body"]) if c["k"] == "MCall" and c.get("m") in ("find_first_of", "find_last_of", "rfind", "find") and any(x["k"] == "Str" and set(x["v"]) == set("-+") for x in walk(c["a"][0]))]
+    for c in srch:
+        start = None
+        if c["m"] == "find_first_of" or c["m"] == "find":
+            a1 = c["a"][1] if len(c["a"]) > 1 else None
+            start = 0 if a1 is None or a1["k"] == "DefArg" else strip(a1).get("v", strip(a1).get("ev"))
+        chk.instance(r_fe, "reader:%d" % c["l"], sample=dict(search=c["m"], start=start, writer_emits_leading_minus=neg))
+        if c["m"] in ("find_first_of", "find") and (start is None or start < 1) and neg:
+            chk.violation(r_fe, "reader:sign", "readFormattedDoubArray looks for the exponent sign from position %s: for a negative value without exponent letter (3-digit exponent) it finds the mantissa's '-' and inserts the 'E' in front of the number" % start, rdb["file"], c["l"])
+    if not srch:
+        chk.violation(r_fe, "reader:missing", "readFormattedDoubArray no longer restores the exponent letter the writer drops for 3-digit exponents", rdb["file"], rdb["l"])
+    _run_rest(chk, fx)
+
+
+def check_reader_bracket(chk, fx, r_br):
     ra = fx.fn1("Opm::EclIO::readBinaryArray")
     loops = [n for n in walk(ra["body"]) if n["k"] == "While"]
     txt = show(loops[0]["body"]) if loops else ""
@@ -343,6 +376,13 @@ def run(chk):
     if not any("rest != 0" in c and "num < maxNumberOfElements" in c for c in conds):
         chk.violation(r_br, "readBinaryArray:count", "readBinaryArray no longer rejects a short block that is not the last one", ra["file"], ra["l"])
 
+
+
+def _run_rest(chk, fx):
+    F_OUT = core.REPO + '/' + OUT
+    F_UTIL = core.REPO + '/' + UTIL
+    sites = [("Opm::EclIO::EclOutput::writeBinaryArray", None), ("Opm::EclIO::EclOutput::writeBinaryCharArray", 2), ("Opm::EclIO::EclOutput::writeBinaryCharArray", 1),
+             ("Opm::EclIO::readBinaryArray", None), ("Opm::EclIO::sizeOnDiskBinary", None)]
     # ---- C07.flip
     r_fl = chk.rule("C07.flip", "every multi-byte value crosses the byte swap of its own type exactly once on the way out and on the way in", floor=7)
     wa = fx.fn1("Opm::EclIO::EclOutput::writeBinaryArray")
